@@ -45,3 +45,14 @@ pub fn vx_opt_cloned_rc<T>(o: Option<&Rc<T>>) -> (r: Option<Rc<T>>)
 {
     o.cloned()
 }
+
+impl BTreeSet<Rc<String>> {
+    /// BTreeSet<Rc<String>>::get(&String) through Borrow<String>: the member with those contents
+    #[verifier::external_body]
+    pub fn get_string(&self, key: &String) -> (r: Option<&Rc<String>>)
+        ensures
+            r is Some ==> self@.contains(*r->Some_0) && (**r->Some_0)@ == key@,
+    {
+        unimplemented!()
+    }
+}
